@@ -57,7 +57,7 @@ def plan(pid: str, cfg: catalog.Cfg, env: Any, tier: str) -> Optional[Dict[str, 
     mon = getattr(refmon, sp["monitor"])(cfg, env, ref)
     out: Dict[str, Any] = dict(monitors=[mon])
     if tier == "quick":
-        out["max_states"] = min(cfg.max_states(tier), 3000)
+        out["max_states"] = min(cfg.max_states(tier), cfg.ref_states_quick)
         out["time_budget_s"] = 75.0
     else:
         out["max_states"] = min(cfg.max_states(tier), 60000)
